@@ -119,6 +119,13 @@ Proof.
     destruct Hc as [Hc|Hc]; [exact (seg_dl h' _ i j So Hc Zj)|exact (seg_dl h' _ i j Sc Hc Zj)].
 Qed.
 
+Ltac fr_close Hi :=
+  let X := fresh "X" in
+  first [ assumption
+        | (intros [_ X]; discriminate)
+        | (intros [X _]; first [contradiction | (apply Hi; rewrite X; tauto) | (revert X; assumption)])
+        | (intro X; apply Hi; rewrite X; tauto) ].
+
 Lemma rd_fresh_none h g k : (Nlen h < k) -> rd h k g = None.
 Proof.
   intro Hk. unfold rd. destruct (tokat h k) eqn:T; [|reflexivity]. apply tokat_some_valid in T. destruct T. lia.
@@ -148,14 +155,14 @@ Theorem split_both_preserves_dl (h : heap) (t : N) (l r : list N) (ts tlen tty s
   exists h', token_split h t start len ntype = Some h' /\ dl h'.
 Proof.
   intros D HS ND Hst Hln Hty NW B1 B2.
-  destruct (split_both h 0 t l r ts tlen tty start len ntype HS ND Hst Hln Hty NW) as (h' & E & L & Sn & _ & _ & _ & _ & _ & _ & _ & _ & _ & Fr); try lia.
+  destruct (split_both h 0 t l r ts tlen tty start len ntype HS ND Hst Hln Hty NW) as (h' & E & L & Sn & _ & _ & _ & _ & _ & _ & _ & _ & _ & _ & _ & Fr); try lia.
   exists h'. split; [exact E|].
   apply (dl_chain_to_chain h h' (l ++ t :: r) (l ++ t :: fresh h :: (fresh h + 1) :: r)); try assumption.
   - intros i Hi. rewrite in_app_iff in Hi |- *. cbn [In] in Hi |- *. unfold fresh in *. intuition lia.
   - intros i Hi. rewrite in_app_iff in Hi |- *. cbn [In] in Hi |- *. tauto.
   - intros i Zi Hi. rewrite in_app_iff in Hi. cbn [In] in Hi.
     assert (i <> hd 0 r) by (destruct r as [|y r']; cbn [hd]; [exact Zi|intro X; apply Hi; right; right; right; right; left; symmetry; exact X]).
-    split; apply Fr; try assumption; intro X; apply Hi; rewrite X; tauto.
+    split; apply Fr; fr_close Hi.
 Qed.
 
 Lemma dl_chain_to_chains h h' old new1 new2 :
@@ -180,14 +187,14 @@ Theorem split_start_preserves_dl (h : heap) (t : N) (l r : list N) (ts tlen tty 
   exists h', token_split h t start len ntype = Some h' /\ dl h'.
 Proof.
   intros D HS ND Hst Hln Hty NW B1 B2.
-  destruct (split_start h 0 t l r ts tlen tty start len ntype HS ND Hst Hln Hty NW) as (h' & E & L & Sn & _ & _ & _ & _ & _ & _ & Fr); try lia.
+  destruct (split_start h 0 t l r ts tlen tty start len ntype HS ND Hst Hln Hty NW) as (h' & E & L & Sn & _ & _ & _ & _ & _ & _ & _ & Fr); try lia.
   exists h'. split; [exact E|].
   apply (dl_chain_to_chain h h' (l ++ t :: r) (l ++ t :: fresh h :: r)); try assumption.
   - intros i Hi. rewrite in_app_iff in Hi |- *. cbn [In] in Hi |- *. unfold fresh in *. intuition lia.
   - intros i Hi. rewrite in_app_iff in Hi |- *. cbn [In] in Hi |- *. tauto.
   - intros i Zi Hi. rewrite in_app_iff in Hi. cbn [In] in Hi.
     assert (i <> hd 0 r) by (destruct r as [|y r']; cbn [hd]; [exact Zi|intro X; apply Hi; right; right; right; left; symmetry; exact X]).
-    split; apply Fr; try assumption; intro X; apply Hi; rewrite X; tauto.
+    split; apply Fr; fr_close Hi.
 Qed.
 
 Theorem split_stop_preserves_dl (h : heap) (t : N) (l r : list N) (ts tlen tty start len ntype : N) :
@@ -197,14 +204,14 @@ Theorem split_stop_preserves_dl (h : heap) (t : N) (l r : list N) (ts tlen tty s
   exists h', token_split h t start len ntype = Some h' /\ dl h'.
 Proof.
   intros D HS ND Hst Hln Hty NW B1 B2.
-  destruct (split_stop h 0 t l r ts tlen tty start len ntype HS ND Hst Hln Hty NW) as (h' & E & L & Sn & _ & _ & _ & _ & _ & _ & Fr); try lia.
+  destruct (split_stop h 0 t l r ts tlen tty start len ntype HS ND Hst Hln Hty NW) as (h' & E & L & Sn & _ & _ & _ & _ & _ & _ & _ & Fr); try lia.
   exists h'. split; [exact E|].
   apply (dl_chain_to_chain h h' (l ++ t :: r) (l ++ t :: fresh h :: r)); try assumption.
   - intros i Hi. rewrite in_app_iff in Hi |- *. cbn [In] in Hi |- *. unfold fresh in *. intuition lia.
   - intros i Hi. rewrite in_app_iff in Hi |- *. cbn [In] in Hi |- *. tauto.
   - intros i Zi Hi. rewrite in_app_iff in Hi. cbn [In] in Hi.
     assert (i <> hd 0 r) by (destruct r as [|y r']; cbn [hd]; [exact Zi|intro X; apply Hi; right; right; right; left; symmetry; exact X]).
-    split; apply Fr; try assumption; intro X; apply Hi; rewrite X; tauto.
+    split; apply Fr; fr_close Hi.
 Qed.
 
 Ltac inapp := repeat (progress (rewrite ?in_app_iff in *; cbn [In app] in *)).
@@ -224,7 +231,7 @@ Proof.
     assert (i <> hd 0 b) by (destruct b as [|y b']; cbn [hd]; [exact Zi|intro X; apply Hi; left; right; right; left; symmetry; exact X]).
     assert (i <> hd pvt a) by (destruct a as [|y a']; cbn [hd]; intro X; apply Hi; left; [right; left|left; left]; symmetry; exact X).
     assert (i <> List.last rr x) by (intro X; apply Hi; right; rewrite X; apply last_in_cons).
-    split; apply Fr; try assumption; intro X; apply Hi; rewrite X; tauto.
+    split; apply Fr; fr_close Hi.
 Qed.
 
 Theorem pop_link_preserves_dl h a pvt t b :
@@ -242,7 +249,7 @@ Proof.
   - intros i Zi Hi. inapp.
     assert (i <> hd 0 b) by (destruct b as [|y b']; cbn [hd]; [exact Zi|intro X; apply Hi; left; right; right; left; symmetry; exact X]).
     assert (i <> hd pvt a) by (destruct a as [|y a']; cbn [hd]; intro X; apply Hi; left; [right; left|left; left]; symmetry; exact X).
-    split; apply Fr; try assumption; intro X; apply Hi; rewrite X; tauto.
+    split; apply Fr; fr_close Hi.
 Qed.
 
 Theorem chain_append_preserves_dl h x1 r1 x2 r2 :
@@ -295,6 +302,170 @@ Proof.
     + tauto.
 Qed.
 
+(* ---- mates: "paired delimiters point at each other" *)
+Definition msym (h : heap) : Prop := forall i j, j <> 0 -> rd h i Fmt = Some j -> rd h j Fmt = Some i.
+
+(* an operation that leaves the mate field of every old token alone and gives new tokens no mate keeps mates symmetric *)
+Lemma msym_same h h' :
+  msym h -> (forall j, rd h' j Fmt = rd h j Fmt \/ (rd h j Fmt = None /\ rd h' j Fmt = Some 0)) -> msym h'.
+Proof.
+  intros M Same i j Zj Hij.
+  destruct (Same i) as [Ei|[_ Ei]]; [|rewrite Ei in Hij; injection Hij as <-; contradiction].
+  rewrite Ei in Hij. pose proof (M i j Zj Hij) as B.
+  destruct (Same j) as [Ej|[Nj _]]; [rewrite Ej; exact B|rewrite Nj in B; discriminate].
+Qed.
+
+Lemma msym_nil : msym [].
+Proof. intros i j _ H. unfold rd, tokat in H. destruct (i =? 0); cbn in H; [discriminate|]. destruct (idx i); discriminate. Qed.
+
+Theorem new_preserves_msym h type start len : msym h -> msym (fst (token_new h type start len)).
+Proof.
+  intro M. apply (msym_same h); [exact M|]. intro j. unfold token_new. cbn [fst].
+  rewrite rd_alloc. destruct (N.eqb_spec j (fresh h)) as [E|E]; [|left; reflexivity].
+  right. subst j. split; [apply rd_fresh_none; unfold fresh; lia|reflexivity].
+Qed.
+
+(* what token_pairs.c does to a matched opener and closer (token_pair_mate), both still without a mate *)
+Definition pair_mate (h : heap) (a b : N) : option heap := let? h := wr h a Fmt b in wr h b Fmt a.
+
+Theorem pair_mate_spec h a b :
+  dl h -> msym h -> rd h a Fmt = Some 0 -> rd h b Fmt = Some 0 -> a <> b ->
+  exists h', pair_mate h a b = Some h' /\ dl h' /\ msym h' /\ rd h' a Fmt = Some b /\ rd h' b Fmt = Some a.
+Proof.
+  intros D M Ha Hb Nab.
+  assert (Va : valid h a) by (eapply rd_some_valid; exact Ha).
+  assert (Vb : valid h b) by (eapply rd_some_valid; exact Hb).
+  unfold pair_mate.
+  destruct (wr_ok h a Fmt b Va) as (h1 & E1 & L1 & R1). rewrite E1. cbn [obind].
+  destruct (wr_ok h1 b Fmt a) as (h2 & E2 & L2 & R2); [apply (valid_len h); assumption|].
+  exists h2. split; [exact E2|].
+  assert (Nba : b <> a) by (apply not_eq_sym; exact Nab).
+  split; [|split; [|split]].
+  - intros i j Zj. rewrite !R2, !R1. cbn [feqb]. rewrite !andb_false_r. apply D, Zj.
+  - intros i j Zj. rewrite !R2, !R1.
+    destruct (N.eqb_spec i b) as [Eib|Nib]; cbn [feqb andb].
+    + intro X. injection X as <-. rewrite (proj2 (N.eqb_neq a b) Nab), N.eqb_refl. cbn [andb]. subst i. reflexivity.
+    + destruct (N.eqb_spec i a) as [Eia|Nia]; cbn [andb].
+      * intro X. injection X as <-. rewrite N.eqb_refl. cbn [andb]. subst i. reflexivity.
+      * intro X. pose proof (M i j Zj X) as B.
+        assert (j <> b) by (intro Y; subst j; rewrite Hb in B; injection B as B; destruct (rd_some_valid _ _ _ _ X); congruence).
+        assert (j <> a) by (intro Y; subst j; rewrite Ha in B; injection B as B; destruct (rd_some_valid _ _ _ _ X); congruence).
+        rewrite (proj2 (N.eqb_neq j b)), (proj2 (N.eqb_neq j a)) by assumption. cbn [andb]. exact B.
+  - rewrite R2, R1, (proj2 (N.eqb_neq a b) Nab), N.eqb_refl. reflexivity.
+  - rewrite R2, N.eqb_refl. reflexivity.
+Qed.
+
+Theorem graft_preserves_msym (h : heap) (a m b : list N) (fi la ctype mm : N) :
+  msym h ->
+  seg h 0 (a ++ fi :: m ++ la :: b) 0 -> NoDup (a ++ fi :: m ++ la :: b) ->
+  rd h fi Fmt = Some mm -> mm = 0 \/ valid h mm /\ mm <> fi ->
+  rd h (hd fi a) Ftl = Some (List.last b la) ->
+  exists h', token_prune_graft h fi la ctype = Some h' /\ msym h'.
+Proof.
+  intros M HS ND Hmt Hmm Htl.
+  destruct (prune_graft_spec h a m b fi la ctype mm HS ND Hmt Hmm Htl) as
+    (h' & E & L & _ & _ & _ & _ & _ & _ & _ & _ & _ & Mf & Mc & Mm & Fr).
+  exists h'. split; [exact E|].
+  set (c := fresh h) in *.
+  assert (Vf : valid h fi) by (eapply rd_some_valid; exact Hmt).
+  assert (Ncf : c <> fi) by (apply not_eq_sym, valid_neq_fresh; exact Vf).
+  assert (FrM : forall i, i <> fi -> i <> c -> i <> mm -> rd h' i Fmt = rd h i Fmt).
+  { intros i H1 H2 H3. apply Fr; try assumption; try (intros [_ X]; discriminate). intros [X _]. contradiction. }
+  intros i j Zj Hij.
+  destruct (N.eq_dec i fi) as [->|Nif]; [rewrite Mf in Hij; injection Hij as <-; contradiction|].
+  destruct (N.eq_dec i c) as [->|Nic].
+  { rewrite Mc in Hij. injection Hij as <-. apply Mm, Zj. }
+  destruct (N.eq_dec i mm) as [->|Nim].
+  { destruct (N.eq_dec mm 0) as [Z|Z]; [subst mm; unfold rd, tokat in Hij; cbn in Hij; discriminate|].
+    rewrite (Mm Z) in Hij. injection Hij as <-. exact Mc. }
+  rewrite (FrM i Nif Nic Nim) in Hij. pose proof (M i j Zj Hij) as B.
+  assert (j <> fi) by (intro X; subst j; rewrite Hmt in B; injection B as B; congruence).
+  assert (j <> c) by (intro X; subst j; rewrite rd_fresh_none in B by (unfold c, fresh; lia); discriminate).
+  assert (j <> mm).
+  { intro X. subst j. destruct Hmm as [Z|[_ _]]; [contradiction|].
+    pose proof (M fi mm Zj Hmt) as B'. rewrite B in B'. injection B' as B'. contradiction. }
+  rewrite FrM by assumption. exact B.
+Qed.
+
+(* the other primitives never write a mate field; tokens they allocate have none *)
+Lemma same_of_frame h h' (news : list N) :
+  (forall j, ~ In j news -> rd h' j Fmt = rd h j Fmt) -> (forall j, In j news -> Nlen h < j /\ rd h' j Fmt = Some 0) ->
+  forall j, rd h' j Fmt = rd h j Fmt \/ (rd h j Fmt = None /\ rd h' j Fmt = Some 0).
+Proof.
+  intros F N j. destruct (in_dec N.eq_dec j news) as [I|I]; [right|left; apply F, I].
+  destruct (N j I) as [A B]. split; [apply rd_fresh_none, A|exact B].
+Qed.
+
+Ltac nofmt := try (intros [_ X]; discriminate).
+
+Theorem chain_append_preserves_msym h x1 r1 x2 r2 h' :
+  msym h -> seg h 0 (x1 :: r1) 0 -> seg h 0 (x2 :: r2) 0 -> NoDup ((x1 :: r1) ++ (x2 :: r2)) -> tail_ok h x1 r1 -> tail_ok h x2 r2 ->
+  token_chain_append h x1 x2 = Some h' -> msym h'.
+Proof.
+  intros M S1 S2 ND T1 T2 E.
+  destruct (chain_append_spec h x1 r1 x2 r2 S1 S2 ND T1 T2) as (h2 & E2 & _ & _ & _ & Fr).
+  assert (h2 = h') by congruence. subst h2.
+  apply (msym_same h); [exact M|]. intro j. left. apply Fr; intros [_ X]; discriminate.
+Qed.
+
+Theorem split_preserves_msym h t l r ts tlen tty start len ntype h' :
+  msym h -> seg h 0 (l ++ t :: r) 0 -> NoDup (l ++ t :: r) -> rd h t Fst = Some ts -> rd h t Fln = Some tlen -> rd h t Fty = Some tty ->
+  ts + tlen < W -> ts <= start -> start + len <= ts + tlen ->
+  token_split h t start len ntype = Some h' -> msym h'.
+Proof.
+  intros M HS ND Hst Hln Hty NW I1 I2 E.
+  destruct (N.lt_ge_cases ts start) as [B1|B1]; destruct (N.lt_ge_cases (start + len) (ts + tlen)) as [B2|B2].
+  - destruct (split_both h 0 t l r ts tlen tty start len ntype HS ND Hst Hln Hty NW I1 I2 B1 B2)
+      as (h2 & E2 & _ & _ & _ & _ & _ & _ & _ & _ & _ & _ & _ & Ma & Ma2 & Fr).
+    assert (h2 = h') by congruence. subst h2.
+    apply (msym_same h); [exact M|]. apply (same_of_frame h h' [fresh h; fresh h + 1]).
+    + intros j Hj. cbn [In] in Hj. apply Fr; try (intros [_ X]; discriminate); intro X; apply Hj; rewrite X; tauto.
+    + intros j [<-|[<-|[]]]; (split; [unfold fresh; lia|assumption]).
+  - destruct (split_start h 0 t l r ts tlen tty start len ntype HS ND Hst Hln Hty NW I1 I2 B1) as (h2 & E2 & _ & _ & _ & _ & _ & _ & _ & _ & Ma & Fr); [lia|].
+    assert (h2 = h') by congruence. subst h2.
+    apply (msym_same h); [exact M|]. apply (same_of_frame h h' [fresh h]).
+    + intros j Hj. cbn [In] in Hj. apply Fr; try (intros [_ X]; discriminate); intro X; apply Hj; rewrite X; tauto.
+    + intros j [<-|[]]. split; [unfold fresh; lia|assumption].
+  - destruct (split_stop h 0 t l r ts tlen tty start len ntype HS ND Hst Hln Hty NW I1 I2) as (h2 & E2 & _ & _ & _ & _ & _ & _ & _ & _ & Ma & Fr); [lia|exact B2|].
+    assert (h2 = h') by congruence. subst h2.
+    apply (msym_same h); [exact M|]. apply (same_of_frame h h' [fresh h]).
+    + intros j Hj. cbn [In] in Hj. apply Fr; try (intros [_ X]; discriminate); intro X; apply Hj; rewrite X; tauto.
+    + intros j [<-|[]]. split; [unfold fresh; lia|assumption].
+  - destruct (split_none h 0 t l r ts tlen start len ntype HS ND Hst Hln NW I1 I2) as (h2 & E2 & _ & _ & Fr); [lia|lia|].
+    assert (h2 = h') by congruence. subst h2.
+    apply (msym_same h); [exact M|]. intro j. left. apply Fr. intros [_ X]; discriminate.
+Qed.
+
+Theorem new_parent_preserves_msym h x r ptype sx h' n :
+  msym h -> seg h 0 (x :: r) 0 -> NoDup (x :: r) -> rd h x Fst = Some sx -> token_new_parent h x ptype = Some (h', n) -> msym h'.
+Proof.
+  intros M HS ND Hsx E.
+  destruct (new_parent_spec h 0 x r ptype sx HS ND Hsx) as (h2 & el & ll & E2 & _ & _ & _ & _ & _ & _ & _ & _ & _ & _ & _ & Mn & Fr).
+  assert (h2 = h') by congruence. subst h2.
+  apply (msym_same h); [exact M|]. apply (same_of_frame h h' [fresh h]).
+  - intros j Hj. cbn [In] in Hj. apply Fr; [intro X; apply Hj; rewrite X; tauto|intros [_ X]; discriminate].
+  - intros j [<-|[]]. split; [unfold fresh; lia|exact Mn].
+Qed.
+
+Theorem prune_preserves_msym h a pvt x rr b h' :
+  msym h -> seg h 0 (a ++ pvt :: (x :: rr) ++ b) 0 -> NoDup (a ++ pvt :: (x :: rr) ++ b) ->
+  rd h (hd pvt a) Ftl = Some (List.last b (List.last rr x)) -> tokens_prune h x (List.last rr x) = Some h' -> msym h'.
+Proof.
+  intros M HS ND Htl E.
+  destruct (prune_spec h a pvt x rr b HS ND Htl) as (h2 & E2 & _ & _ & _ & _ & Fr).
+  assert (h2 = h') by congruence. subst h2.
+  apply (msym_same h); [exact M|]. intro j. left. apply Fr; intros [_ X]; discriminate.
+Qed.
+
+Theorem pop_link_preserves_msym h a pvt t b h' :
+  msym h -> seg h 0 (a ++ pvt :: t :: b) 0 -> NoDup (a ++ pvt :: t :: b) -> token_pop_link_from_chain h t = Some h' -> msym h'.
+Proof.
+  intros M HS ND E.
+  destruct (pop_link_spec h a pvt t b HS ND) as (h2 & E2 & _ & _ & _ & _ & _ & _ & Fr).
+  assert (h2 = h') by congruence. subst h2.
+  apply (msym_same h); [exact M|]. intro j. left. apply Fr; intros [_ X]; discriminate.
+Qed.
+
 (* ---- histories: one step = one primitive called within the hypotheses of its theorem *)
 Inductive good_step : heap -> heap -> Prop :=
 | GNew h type start len : good_step h (fst (token_new h type start len))
@@ -316,7 +487,9 @@ Inductive good_step : heap -> heap -> Prop :=
     rd h (hd pvt a) Ftl = Some (List.last b (List.last rr x)) ->
     tokens_prune h x (List.last rr x) = Some h' -> good_step h h'
 | GPop h a pvt t b h' :
-    seg h 0 (a ++ pvt :: t :: b) 0 -> NoDup (a ++ pvt :: t :: b) -> token_pop_link_from_chain h t = Some h' -> good_step h h'.
+    seg h 0 (a ++ pvt :: t :: b) 0 -> NoDup (a ++ pvt :: t :: b) -> token_pop_link_from_chain h t = Some h' -> good_step h h'
+| GMate h a b h' :
+    rd h a Fmt = Some 0 -> rd h b Fmt = Some 0 -> a <> b -> pair_mate h a b = Some h' -> good_step h h'.
 
 Inductive reachable : heap -> Prop :=
 | RNil : reachable []
@@ -344,11 +517,38 @@ Proof.
   - destruct (new_parent_preserves_dl h x r ptype sx) as (h2 & E & D2); try assumption. same_result.
   - destruct (prune_preserves_dl h a pvt x rr b) as (h2 & E & D2); try assumption. same_result.
   - destruct (pop_link_preserves_dl h a pvt t b) as (h2 & E & D2); try assumption. same_result.
+  - (* mating writes no link *)
+    unfold pair_mate in *.
+    assert (Va : valid h a) by (eapply rd_some_valid; eassumption).
+    assert (Vb : valid h b) by (eapply rd_some_valid; eassumption).
+    destruct (wr_ok h a Fmt b Va) as (h1 & E1 & L1 & R1). rewrite E1 in *. cbn [obind] in *.
+    destruct (wr_ok h1 b Fmt a) as (h2 & E2 & L2 & R2); [apply (valid_len h); assumption|].
+    assert (h2 = h') by congruence. subst h2.
+    intros i j Zj. rewrite !R2, !R1. cbn [feqb]. rewrite !andb_false_r. apply D, Zj.
+Qed.
+
+Lemma good_step_msym h h' : dl h -> msym h -> good_step h h' -> msym h'.
+Proof.
+  intros D M G. destruct G.
+  - apply new_preserves_msym, M.
+  - apply (chain_append_preserves_msym h x1 r1 x2 r2 h'); assumption.
+  - destruct (graft_preserves_msym h a m b fi la ctype mm) as (h2 & E & M2); try assumption. same_result.
+  - apply (split_preserves_msym h t l r ts tlen tty start len ntype h'); assumption.
+  - apply (new_parent_preserves_msym h x r ptype sx h' n); assumption.
+  - apply (prune_preserves_msym h a pvt x rr b h'); assumption.
+  - apply (pop_link_preserves_msym h a pvt t b h'); assumption.
+  - destruct (pair_mate_spec h a b D M) as (h2 & E & _ & M2 & _); try assumption. same_result.
 Qed.
 
 (* every heap built by calls that stay within the hypotheses is doubly linked everywhere *)
+Theorem reachable_coherent h : reachable h -> dl h /\ msym h.
+Proof.
+  induction 1 as [|h h' _ [D M] G]; [split; [exact dl_nil|exact msym_nil]|].
+  split; [exact (good_step_dl h h' D G)|exact (good_step_msym h h' D M G)].
+Qed.
+
 Theorem reachable_doubly_linked h : reachable h -> dl h.
-Proof. induction 1 as [|h h' _ IH G]; [exact dl_nil|exact (good_step_dl h h' IH G)]. Qed.
+Proof. intro R. exact (proj1 (reachable_coherent h R)). Qed.
 
 (* ---- the repaired tokens_prune does not look at the rest of the chain when the pruned run is followed by
    another token: its result is four field writes, whatever the length of the chain (C07: a paragraph with n
